@@ -65,6 +65,10 @@ type Step struct {
 	// MidUpdate: a management call made while the waiters wait (starve); Flips: model changes of an emstorm step
 	MidUpdate *Update `json:"midupdate"`
 	Flips     int     `json:"flips"`
+	// DelayMs: starve: the waiters are left waiting this long before the first holder is let go (steering only);
+	// RaceQueries: updrace in a silent (race-detector) session: the query methods run at the same time
+	DelayMs     int  `json:"delayms"`
+	RaceQueries bool `json:"racequeries"`
 	Reqs    []Req    `json:"reqs"`
 	Update  *Update  `json:"update"`
 	Updates []Update `json:"updates"`
@@ -560,6 +564,9 @@ func (d *drv) starve(st *Step) {
 	if st.MidUpdate != nil {
 		d.doUpdate(st.MidUpdate)
 	}
+	if st.DelayMs > 0 {
+		time.Sleep(time.Duration(st.DelayMs) * time.Millisecond) // however long a waiter waits, it waits
+	}
 	released := map[int64]bool{}
 	nEnded := func() int {
 		d.mu.Lock()
@@ -800,6 +807,15 @@ func runSession(s *Session, quiet time.Duration, seed int64) ([]obs.Event, bool)
 				for i := range ups {
 					uw.Add(1)
 					go func(u *Update) { defer uw.Done(); d.doUpdate(u) }(&ups[i])
+				}
+				if st.RaceQueries && s.Silent {
+					uw.Add(1)
+					go func() {
+						defer uw.Done()
+						for k := 0; k < 20; k++ {
+							d.queries([]string{"r1", "r2", "r3", "r4", "zz"})
+						}
+					}()
 				}
 				d.burst(st.Reqs, s.CheckV, nil)
 				uw.Wait()
